@@ -145,20 +145,20 @@ Theorem C15_precedence_consistent : dsl_prec_consistent = true.
 Proof. exact dsl_prec_consistent_true. Qed.
 Print Assumptions C15_precedence_consistent.
 
-(* the two findings of the widened language that the model can express: a `using` import that evaluates to null reached by a
-   lookup (the code dereferences a null pointer), intersection() padding its own running result (wrong values); the model stops
-   there with an explicit abort, the neighbours are followed *)
-Theorem C15_null_import_refuted :
-  fst (dsl_run 400 dsl_prog_null_import) = DrAbort DaNullImport /\
+(* the two findings of the widened language that the model could express, fixed in /repo (9625736: a `using` import that evaluates
+   to null and is reached by a lookup is a script error; b5e2da1: intersection() writes every step into a fresh array): the model
+   follows the fixed code, the former witnesses are ordinary programs now *)
+Theorem C15_null_import_fixed :
+  fst (dsl_run 400 dsl_prog_null_import) = DrErr DkType /\
   dsl_observe (dsl_run 400 dsl_prog_null_import_unreached) = ["4"; "{}"; "{""a"":4}"; "{}"].
-Proof. exact dsl_null_import_refuted. Qed.
-Print Assumptions C15_null_import_refuted.
+Proof. exact dsl_null_import_fixed. Qed.
+Print Assumptions C15_null_import_fixed.
 
-Theorem C15_intersection_alias_refuted :
-  fst (dsl_run 400 dsl_prog_isect_alias) = DrAbort DaIsectAlias /\
+Theorem C15_intersection_alias_fixed :
+  dsl_observe (dsl_run 400 dsl_prog_isect_alias) = ["[-5]"; "{}"; "{}"; "{}"] /\
   dsl_observe (dsl_run 400 dsl_prog_isect_ok) = ["[2,3]"; "{}"; "{}"; "{}"].
-Proof. exact dsl_isect_alias_refuted. Qed.
-Print Assumptions C15_intersection_alias_refuted.
+Proof. exact dsl_isect_alias_fixed. Qed.
+Print Assumptions C15_intersection_alias_fixed.
 
 (* the three operators/methods fixed in /repo (9eeddcb array - null, 150ea79 %, 2c1ef52 Array#map/filter/any/all):
    the model follows the fixed code; the former crash witnesses are ordinary programs now *)
